@@ -194,6 +194,34 @@ def coinductive_trap_pair(rng):
     if rng.random() < 0.7: b, _ = permute_states(rng, b)
     return a, b
 
+def sim_prune_pair(rng):
+    """upward inclusion WITH a simulation prunes stored pairs by the preorder: A has two states q < qp in strict upward simulation (qp has
+    every context of q and one more, k(qp) -> r); (qp, P') is discovered at the leaves and (q, P) with P inside P' later, in the main loop.
+    Pruning in the right direction keeps (qp, P') - it is the only pair through which the extra context k is examined. B may or may not
+    have a k rule, so the truth varies; numbers, symbol codes, the number of shared contexts and noise are random."""
+    codes = rng.sample(range(8, 30), 8)
+    la, lb, g, k, n = codes[0], codes[1], codes[2], codes[3], codes[4]
+    ctx = codes[5:5 + rng.randint(1, 3)]
+    qp, s, q, r = 0, 1, 2, 3
+    arules = [(la, qp, ()), (lb, s, ()), (g, q, (s,))] + [(m, r, (q,)) for m in ctx] + [(m, r, (qp,)) for m in ctx] + [(k, r, (qp,))]
+    a = TA([r], arules)
+    x = [10 + i for i in range(len(ctx))]                 # one state of B per shared context (at least x1; two contexts -> x1, x2 ...)
+    if len(x) == 1: x.append(11)
+    y, z, w = 20, 21, 22
+    brules = [(la, xi, ()) for xi in x] + [(la, y, ()), (lb, z, ())] + [(g, xi, (z,)) for xi in x]
+    for i, m in enumerate(ctx): brules.append((m, w, (x[i % len(x)],)))
+    brules.append((n, w, (y,)))
+    mode = rng.random()
+    if mode < 0.35: brules.append((k, w, (y,)))                      # k(a) accepted through y: included
+    elif mode < 0.5: brules.append((k, w, (x[0],)))                  # k(a) accepted through x1 (then also k(g(b))): included
+    b = TA([w], brules)
+    for _ in range(rng.choice([0, 0, 1])):
+        a.rules.append((rng.choice(ctx), r, (rng.choice([q, qp]),)))
+    rng.shuffle(a.rules); rng.shuffle(b.rules)
+    if rng.random() < 0.6: a, _ = permute_states(rng, a)
+    if rng.random() < 0.6: b, _ = permute_states(rng, b)
+    return a, b
+
 def late_sibling_pair(rng):
     """A: f(c1, c2) -> p (final) where c2 is reached by 2-3 different leaf symbols and c1 sits on top of a unary chain over a leaf that has TWO
     parents in B (its macro-state is larger, so it leaves the worklist late); B gives every leaf of c2 its own state, and f over some of them
